@@ -1779,6 +1779,19 @@ impl ClonedObserver for Option<&Observer<Val>> {
     }
 }
 
+/// The engine's observer / handler maps hash with a seed derived from the case (verification
+/// hook): handler order is then a function of the case, not of the process.
+#[cfg(cormacrelf_incremental_rs_verif)]
+pub fn set_engine_hash_seed(bytes: &[u8]) {
+    let mut h: u64 = 0xcbf29ce484222325;
+    for b in bytes {
+        h = (h ^ *b as u64).wrapping_mul(0x100000001b3);
+    }
+    incremental::verif_set_hash_seed(h);
+}
+#[cfg(not(cormacrelf_incremental_rs_verif))]
+pub fn set_engine_hash_seed(_bytes: &[u8]) {}
+
 /// Run one case from its choice sequence.
 pub fn run_case(prof: &Profile, bytes: &[u8], audit: Option<fn(&IncrState, bool) -> Vec<String>>) -> CaseResult {
     run_case_fault(prof, bytes, audit, None)
@@ -1791,6 +1804,7 @@ pub fn run_case_fault(
     audit: Option<fn(&IncrState, bool) -> Vec<String>>,
     fault_at: Option<u64>,
 ) -> CaseResult {
+    set_engine_hash_seed(bytes);
     let mut ch = Choices::new(bytes);
     let swarmed = crate::lang::swarm(prof, &mut ch);
     let prof = &swarmed;
